@@ -482,7 +482,7 @@ def settle_lines(j, shift):
 
 def main(chk):
     quick = chk.tier == 'quick'
-    n_files, n_multi = (30, 8) if quick else (400, 100)
+    n_files, n_multi = (30, 8) if quick else (340, 85)      # thorough: 400 -> 340 when parts (f), (g) were added (25 min budget)
     R.tools_dir()
     names, ur = R.usage_warning_names()
     classes = [n for n in names if n not in ('all', 'none')]
@@ -787,7 +787,7 @@ def main(chk):
     chk.count('two-fault files', len(prs))
 
     # ---------------- (f) inputs made of several files: the fault in each file in turn, every phase
-    n_models = len(MU.LAYOUTS) if quick else 5 * len(MU.LAYOUTS)
+    n_models = len(MU.LAYOUTS) if quick else 4 * len(MU.LAYOUTS)
     MF_CLASSES = [c for c in MU.LEXICAL + MU.SYNTAX + MU.RESOLVE + MU.EXTRA if c in PRIMARY]
     mjobs = []
     for i in range(n_models):
